@@ -229,7 +229,16 @@ class Space:
       x = lo + (hi - lo) * rng.random(len(lo))
     for a in self.atoms:
       x[a['var']] = 0.0
-    return self.complete_point(x)
+    return self.complete_point(self.round_int_vars(x))
+
+  def round_int_vars(self, x):
+    """Variables of arrays declared with an integer storage dtype (harness.with_dtype) take integer values."""
+    iv = getattr(self, 'int_vars', None)
+    if iv:
+      idx = np.fromiter(iv, dtype=np.int64)
+      x = np.array(x, dtype=float)
+      x[idx] = np.rint(x[idx])
+    return x
 
   def complete_point(self, x: np.ndarray) -> np.ndarray:
     x = np.array(x, dtype=float)
